@@ -66,12 +66,13 @@ func c19(c *Ctx) {
 			bound[fv.Name()] = facts.Term(mc.Bindings[k])
 		}
 		okMsg := false
-		if al, ok := sd.X.(*ssa.Alloc); ok {
+		// (the literal is built inside the hand-off closure, or in Push itself and captured)
+		if al, ok := resolveSpill(sd.X).(*ssa.Alloc); ok {
 			vals, _ := allocStores(al)
 			// (a captured variable renders as `x` or, when it lives in a cell shared with the
 			// enclosing function, as `local:x`)
 			same := func(t, name string) bool { return t == name || t == "local:"+name }
-			okMsg = same(termOrNil(vals["vaa"]), "v") && same(bound["v"], "v")
+			okMsg = same(termOrNil(vals["vaa"]), "v") && (al.Parent() == push || same(bound["v"], "v"))
 			okMsg = okMsg && same(termOrNil(vals["serialized"]), "serializedVaa")
 		}
 		R.Check("C19.gate", R.Key("C19.gate", shortFn(sd.Fn), "message"), pos, "the queued message carries the verified VAA and its serialized bytes", okMsg, fmt.Sprintf("bindings %v; message fields %v", bound, c19vals(sd.X)))
